@@ -18,6 +18,7 @@ from .. import strategies as S
 from ..unit import Outcome, Unit
 
 ID = "C09"
+QUICK_SCALE = 1.0  # this check already takes 75-95 s in the quick tier
 RULE = (
     "documents are tie-rich by construction: neutral text + keywords that the shipped keyword directory lists in several "
     "files or in several letter-case variants (found by reading the directory) + token-soup fragments. Dimensions: "
